@@ -13,6 +13,8 @@ import (
 	_ "crypto/sha256"
 	"crypto/sha512"
 	"fmt"
+	"os"
+	"strconv"
 	"strings"
 
 	"golang.org/x/crypto/sha3"
@@ -742,6 +744,11 @@ func optionCombos(r *mon.Run, c Case) {
 	}
 }
 
+var huge []byte
+
+// two32 = 2^32 where int has 64 bits (computed at run time: the constant would not compile for 32-bit targets)
+var two32 = func() int { one := 1; return one << 32 }()
+
 func main() {
 	r := mon.Start("C19", "table of ~70 byte-taking entry points (scalar/point/key/signature/proof decoders; Ed25519 single/expanded/batch/cached verification; signing-side option validation; ECVRF; X25519 and conversions; sr25519 decoders, verification and batch; h2c expanders and suites; Merlin operations; entropy readers) x lengths 0..nominal+40, 2*nominal, 128, 255..257, 1000 (+4 KiB, 70000, 1 MiB for message-like arguments) x contents {zeros, ff, valid prefix + junk, PRNG} + nil; receivers pre-loaded with a non-neutral value; per call: recover(), documented-panic table from the doc comments, wrong-length => failure, receiver neutral (where the code documents a reset) or unchanged, loop-tick budget 5e6 + 2e4/byte; non-trivial = (entry, length, fill); distinct = SHA-256 of it")
 	r.Workers = 1 // the loop-tick counter is process-global
@@ -799,6 +806,33 @@ func main() {
 			runOne(r, en, Case{Entry: en.name, Len: nominal, Fill: fmt.Sprintf("bitflip:%d", 8*nominal-1)})
 		}
 		runOne(r, en, Case{Entry: en.name, Nil: true, Fill: "zeros"})
+		// lengths that only differ from the valid one above bit 31 (a length check done in 32 bits takes them for
+		// valid): 2^32 + nominal and 2^32, as untouched virtual memory, for the fixed-size decoders on 64-bit targets
+		if strconv.IntSize == 64 && len(en.valid) == 1 && !en.big && nominal <= 96 && !strings.Contains(en.name, "msg") && os.Getenv("VERIF_NO_HUGE") == "" {
+			if huge == nil {
+				huge = make([]byte, two32+128)
+			}
+			for _, l := range []int{two32 + nominal, two32} {
+				copy(huge, en.good())
+				b := huge[:l]
+				var success bool
+				zzverifrt.Arm(50_000_000)
+				pan, pmsg := mon.Try(func() { success, _ = en.call(b) })
+				zzverifrt.Arm(0)
+				r.Eval([]byte(fmt.Sprintf("%s|huge|%d", en.name, l)))
+				r.Hist("lengths-above-2^32")
+				docPanic := en.docPanic != nil && en.docPanic(b)
+				switch {
+				case pan && !docPanic:
+					r.Violate("untrusted/"+en.name+"/undocumented-panic", fmt.Sprintf("len=2^32+%d: %s", l-two32, pmsg), Case{Entry: en.name, Len: l, Fill: "valid-prefix+junk"})
+				case !pan && success:
+					r.Violate("untrusted/"+en.name+"/wrong-length-accepted", fmt.Sprintf("an input of 2^32+%d bytes (valid encoding followed by zeros) is reported as success", l-two32), Case{Entry: en.name, Len: l, Fill: "valid-prefix+junk"})
+				}
+			}
+			for i := 0; i < 128; i++ {
+				huge[i] = 0
+			}
+		}
 		// the valid example must succeed, otherwise the entry proves nothing
 		runOne(r, en, Case{Entry: en.name, Len: nominal, Fill: "valid-prefix+junk"})
 		if r.HistGet("success/"+en.name) == 0 {
